@@ -24,7 +24,7 @@ package gochannel
 
 //@ type subscriber
 //@   self s
-//@   monitor sending guards closed(write), #lastSent
+//@   monitor sending guards closed(write), outputChannel(write), #lastSent
 //@   ghostfield lastSent *message.Message
 //@   ownschan outputChannel, closing
 //@   object-invariant s.ctx != nil && s.logger != nil && s.outputChannel != nil && s.closing != nil && !closeonly(s.outputChannel) [wired-at-creation]
